@@ -73,21 +73,21 @@ MORE = {
  "C01": "census of text/number transformations on the key-derivation path; branch-origin check that 'start from the request key' is selected by the presence lookup only (flags resolved through callers)",
  "C02": "decision tables (abstract evaluation of the EFFECTIVE comparator – closure, helper, sort.Interface, sort.Reverse, alternatives under the direction flag – over both directions × the 9 orderings); cursor-step recognition and field-based resolution of local record types for loop state held in objects; counted-loop and page-limit exit classification; alias of the I1 path-case analysis",
  "C03": "closed state model of the index (T-FIELD closure, coherence of derived fields); zero-key-with-error discipline of the key derivation (sparse indexes)",
- "C04": "classification of the resume comparison (operator, direction dependence, operands = primary key of the position vs rendered start key); aliases: verbatim S/N flow through the adapters, loop-exit classification",
- "C05": "decision table of the engine's verdict (abstract evaluation over presence × verdict of the three expression kinds, unknown tests enumerated both ways); verdict helpers (refusal turned into an error by a helper: tested at the call, refused edge reaches no write); alias of the lossless-key census",
+ "C04": "dominance of every returned key by the table-key derivation; unconditional hand-over of the engine's resume key; classification of the resume comparison (operator, direction dependence, operands = primary key of the position vs rendered start key); aliases: verbatim S/N flow through the adapters, loop-exit classification",
+ "C05": "CFG exploration under facts for the refused edge (verdict forwarders); decision table of the engine's verdict (abstract evaluation over presence × verdict of the three expression kinds, unknown tests enumerated both ways); verdict helpers (refusal turned into an error by a helper: tested at the call, refused edge reaches no write); alias of the lossless-key census",
  "C06": "operand flow (value-origin tracing, eval-of mode) from the parser's node stores to the comparators' parameters; built-ins resolved from their registry key through function variables and function-building helpers; dynamic dispatch in the type-fact domain; decision table of the undefined-operand handler; pointer-identity comparison census with type-tag facts; dominance of the undefined test over every comparing use of the left operand in IN/BETWEEN; function-parameter sensitive reachability",
- "C07": "purity of the update grammar's functions w.r.t. their operands (derived-value store census); copy-on-SET with mutability of object types computed from their methods; must-non-nil analysis of the type field in ToDynamoDB",
+ "C07": "key agreement between the environment's store and removed-set; closed state model of the environment; purity of the update grammar's functions w.r.t. their operands (derived-value store census); copy-on-SET with mutability of object types computed from their methods; must-non-nil analysis of the type field in ToDynamoDB",
  "C08": "immutability census of *types.Item (no store through an Item that was not allocated locally)",
  "C09": "length facts through closure-bound arities (free variable → binding → construction-site constant); guard check that identifier nodes are built from tokens checked to be identifiers; position-vs-length guard of the EOF token; list-member loops run to exhaustion unless an error object is returned",
  "C10": "presence→object-tag agreement of the attribute→object conversion (case chains and (predicate, constructor) tables; branch facts incl. short-circuit phis); value-origin tracing of every S/N slot store in all four mapper directions (package-local helpers looked into); must-non-nil analysis (make/literal/append/phi/helper returns/field invariants) of the type-carrying field per SDK member case and per object kind; aliases: lossless keys, ownership of conversion results",
  "C12": "canonicaliser recognition restricted to math/big; per-key-list text-order findings; boundary sites keyed by kind and operand origin (value-origin tracing)",
- "C13": "interprocedural dominance of success returns by the key derivation; composition forms (Join, concatenation, multi-verb Sprintf); guarded-write census of Table.AttributesDef against operations other than table creation; alias of the lossless-key census",
+ "C13": "error-class dataflow for the key derivation's errors; interprocedural dominance of success returns by the key derivation; composition forms (Join, concatenation, multi-verb Sprintf); guarded-write census of Table.AttributesDef against operations other than table creation; alias of the lossless-key census",
  "C14": "shared package-level results; shallow element copies (copy / append(dst, src...) on slices of references)",
  "C16": "operand-evaluation dominance per node evaluator (no short-circuit before a non-error result), member loops; decision table of the write-request validator",
- "C17": "pairwise dominance order of the checks per operation; events collected through helpers only one client has; aliases: verbatim scalars, type-field non-nilness, batch validators",
+ "C17": "error-class dataflow (every returnable error value classified nil/sdk/engine/bare/sentinel/configured through helpers, phis and the mapper); pairwise dominance order of the checks per operation; events collected through helpers only one client has; aliases: verbatim scalars, type-field non-nilness, batch validators",
  "C18": "closed state model (field census against a confirmed table; coherence of derived fields by post-dominance of rewrites over the writers of their sources); escape analysis of loop-variable (and loop-variable field) addresses under pre-1.22 semantics; alias of the attribute-definition guard",
  "C19": "field-forwarding table KeysAndAttributes→GetItemInput; error-classification guard on the unprocessed edge; accumulation analysis in the function that holds the key loop",
- "C20": "closed state model of the native interpreter; registry accesses through selector helpers; unconditional propagation (only loop progress and panicking guards may govern the per-table store)",
+ "C20": "decision table of the native/language dispatch (unknown tests enumerated both ways); closed state model of the native interpreter; registry accesses through selector helpers; unconditional propagation (only loop progress and panicking guards may govern the per-table store)",
 }
 
 PENDING = {}
